@@ -971,6 +971,8 @@ class Engine:
             return it
         if hasattr(it, "__iter__") and not is_sym(it):
             return list(it)
+        if it is None or isinstance(it, (bool, int, float)):
+            raise ModelRaise("TypeError", ["%s object is not iterable" % type(it).__name__], cls=TypeError)
         raise Unsupported("iteration over %r" % (it,))
 
     def sym_range(self, n, start=0):
